@@ -516,6 +516,27 @@ class Instance:
         self.mem_init = {}
         for st in mod.initials:
             self._initial(st)
+        # memories written in an edge-triggered process: one state variable per word, named <mem>#<address>
+        # (a word without an `initial` assignment is x until written: init None)
+        for n in self.regs:
+            d = mod.decls.get(n)
+            if d is None or d.get('depth') is None: continue
+            design.state.pop(self.path + '.' + n, None); design.init.pop(self.path + '.' + n, None)
+            w = self.width(n)
+            for a_ in self.mem_range(n):
+                iv = self.mem_init.get(n, {}).get(a_)
+                iv = None if iv is None else iv & ((1 << w) - 1)
+                design.init[self.path + '.%s#%d' % (n, a_)] = iv
+                design.state[self.path + '.%s#%d' % (n, a_)] = dict(width=w, init=iv, kind='reg', memory=n)
+
+    def mem_range(self, n):
+        dd = self.m.decls[n]['depth']
+        lo_ = self.d._const(dd[0], self.params); hi_ = self.d._const(dd[1], self.params)
+        return range(min(lo_, hi_), max(lo_, hi_) + 1)
+
+    def is_mem(self, n):
+        d = self.m.decls.get(n)
+        return d is not None and d.get('depth') is not None
 
     def _initial(self, st):
         if st[0] == 'block': [self._initial(x) for x in st[1]]
@@ -531,6 +552,7 @@ class Instance:
                 self.d.state[self.path + '.' + n]['init'] = v & ((1 << w) - 1)
 
     def width(self, name):
+        if '#' in name: name = name.split('#')[0]
         w = self.d.width_of(self.m, name, self.params)
         if w is None: raise VError('undeclared identifier %s in %s' % (name, self.m.name))
         return w
@@ -598,6 +620,13 @@ class Instance:
         return v
 
     def _value(self, name):
+        if '#' in name:
+            key = self.path + '.' + name
+            if key in self.d.state_terms: return self.d.state_terms[key]
+            init = self.d.init.get(key)
+            if init is None:
+                raise VError('memory word %s has no initial value and no symbolic state was supplied' % key)
+            return ir.const(init)
         d = self.m.decls.get(name)
         if d is None:
             if name in self.params: return ir.const(self.params[name] & 0xFFFFFFFF)
@@ -695,7 +724,14 @@ class Instance:
             bw = self.width(e[1])
             base = self.value(e[1]) if self.m.decls[e[1]].get('depth') is None else None
             if self.m.decls[e[1]].get('depth') is not None:
-                if e[1] in self.regs: raise VError('memory written in a process is not supported')
+                if e[1] in self.regs:
+                    idx, iw, isg = self.self_eval(e[2])
+                    rng_ = self.mem_range(e[1])
+                    self.d.undef_conds.append(ir.bor_(ir.lt(idx, rng_[0]), ir.gt(idx, rng_[-1])))
+                    r = ir.const(0)
+                    for a_ in reversed(rng_):
+                        r = ir.ite(ir.eq(idx, a_), self.value('%s#%d' % (e[1], a_)), r)
+                    return r
                 words = self.mem_init.get(e[1], {})
                 dd = self.m.decls[e[1]]['depth']
                 lo_ = self.d._const(dd[0], self.params); hi_ = self.d._const(dd[1], self.params)
@@ -811,6 +847,11 @@ class Instance:
                 self.d.next_state[key] = v
                 self.d.state.setdefault(key, dict(width=self.width(n), init=None, kind='reg'))['edge'] = (kind, clk)
         for n in self.regs:
+            if self.is_mem(n):
+                for a_ in self.mem_range(n):
+                    key = self.path + '.%s#%d' % (n, a_)
+                    if key not in self.d.next_state: self.d.next_state[key] = self.value('%s#%d' % (n, a_))
+                continue
             key = self.path + '.' + n
             if key not in self.d.next_state:
                 self.d.next_state[key] = self.value(n)
@@ -864,6 +905,17 @@ class Instance:
             saved = self.value
             # evaluate rhs with blocking updates visible
             v = self._assign_env(st[2], self._lhs_width(lhs), env)
+            if lhs[0] == 'bit' and self.is_mem(n):
+                # mem[idx] = v / mem[idx] <= v: every word keeps its value except the addressed one
+                idx = self._eval_env(lhs[2], env)
+                for a_ in self.mem_range(n):
+                    wn = '%s#%d' % (n, a_)
+                    cur = nb[wn] if (k == 'nb' and wn in nb) else self._cur(wn, env)
+                    nv = ir.ite(ir.eq(idx, a_), v, cur)
+                    if k == 'b': env[wn] = nv
+                    else: nb[wn] = nv
+                assigned.add(n)
+                return
             if lhs[0] != 'id':
                 if lhs[0] == 'bit':
                     idx = self._eval_env(lhs[2], env)
@@ -878,6 +930,7 @@ class Instance:
 
     def _lhs_width(self, lhs):
         if lhs[0] == 'id': return self.width(lhs[1])
+        if lhs[0] == 'bit' and self.is_mem(lhs[1]): return self.width(lhs[1])
         if lhs[0] == 'bit': return 1
         return self.d._const(lhs[2], self.params) - self.d._const(lhs[3], self.params) + 1
 
